@@ -163,6 +163,26 @@ impl Daser {
         (daser, mock_handle)
     }
 
+    /// Copy of [`Daser::mocked`] for the verification harness.
+    #[cfg(eigerco_lumina_verif)]
+    pub(crate) fn verif_mocked() -> (Self, crate::test_utils::MockDaserHandle) {
+        let (cmd_tx, cmd_rx) = mpsc::channel(16);
+        let cancellation_token = CancellationToken::new();
+
+        // Just a fake join_handle
+        let join_handle = spawn(async {});
+
+        let daser = Daser {
+            cmd_tx,
+            cancellation_token,
+            join_handle,
+        };
+
+        let mock_handle = crate::test_utils::MockDaserHandle { cmd_rx };
+
+        (daser, mock_handle)
+    }
+
     /// Stop the worker.
     pub(crate) fn stop(&self) {
         // Signal the Worker to stop.
@@ -627,6 +647,10 @@ fn random_indexes(square_width: u16, max_samples_needed: usize) -> HashSet<(u16,
 
     indexes
 }
+
+#[cfg(eigerco_lumina_verif)]
+#[path = "daser_verif_hooks.rs"]
+pub mod verif_hooks;
 
 #[cfg(test)]
 mod tests {
